@@ -86,11 +86,27 @@ fn joined_content(n: usize) -> Vec<u8> {
     s.into_bytes()
 }
 
-const JOIN_SIZES: [usize; 5] = [0, 3, 10, 11, 25];
+const JOIN_SIZES: [usize; 7] = [0, 3, 10, 11, 25, 1025, 1040];
+
+/// sizes >= 1000 denote sparse files: (size - 1000) lines of which only every 13th is admitted
+fn joined_file(n: usize) -> Vec<u8> {
+    if n < 1000 {
+        return joined_content(n);
+    }
+    let mut s = String::new();
+    for i in 0..(n - 1000) {
+        if i % 13 == 0 || i == 1 || i == 2 {
+            s.push_str(&format!("{{\"k\":\"{}\",\"y\":{}}}\n", if i % 2 == 0 { "a" } else { "b" }, i));
+        } else {
+            s.push_str("not admitted\n");
+        }
+    }
+    s.into_bytes()
+}
 
 fn world() -> World {
     let tables = sut::make_tables(&format!("{}\n{}", JDEF, JDEF_U)).unwrap();
-    let contents: Vec<Vec<u8>> = JOIN_SIZES.iter().map(|n| joined_content(*n)).collect();
+    let contents: Vec<Vec<u8>> = JOIN_SIZES.iter().map(|n| joined_file(*n)).collect();
     let crefs: Vec<&[u8]> = contents.iter().map(|c| c.as_slice()).collect();
     let tmp = sut::TempFiles::new(&crefs);
     let mut stmts: Vec<String> = vec![
@@ -110,20 +126,44 @@ fn world() -> World {
     World { tables, stmts, _tmp: tmp }
 }
 
+fn alphabet() -> Vec<Vec<u8>> {
+    let mut v: Vec<Vec<u8>> = jlines().iter().map(|l| l.as_bytes().to_vec()).collect();
+    v.push(vec![0xFF, b'x']); // a line that is not valid UTF-8: reading it is an error
+    v
+}
+
+fn files_from_bytes(lines: &[&[u8]], parts: &[usize]) -> Vec<Vec<u8>> {
+    let mut out = Vec::new();
+    let mut i = 0;
+    for p in parts {
+        let mut f = Vec::new();
+        for l in &lines[i..i + p] {
+            f.extend_from_slice(l);
+            f.push(b'\n');
+        }
+        out.push(f);
+        i += p;
+    }
+    out
+}
+
 fn nonblank(v: &[String]) -> Vec<String> {
     v.iter().filter(|l| !l.is_empty()).cloned().collect()
 }
 
 fn check_group(w: &World, si: usize, seq: &[u8], parts: &[usize], only: Option<&Interrupt>) -> (Vec<Failure>, u64, u64, u64) {
-    let al = jlines();
-    let lines: Vec<&str> = seq.iter().map(|i| al[*i as usize]).collect();
-    let files = sut::files_from(&lines, parts);
+    let al = alphabet();
+    let blines: Vec<&[u8]> = seq.iter().map(|i| al[*i as usize].as_slice()).collect();
+    let lossy: Vec<String> = blines.iter().map(|l| String::from_utf8_lossy(l).to_string()).collect();
+    let lines: Vec<&str> = lossy.iter().map(|s| s.as_str()).collect();
+    let bad_idx = seq.iter().position(|i| *i as usize == al.len() - 1);
+    let files = files_from_bytes(&blines, parts);
     let frefs: Vec<&[u8]> = files.iter().map(|f| f.as_slice()).collect();
     let text = &w.stmts[si];
     let is_agg = sut::parse(text).unwrap().is_aggregate();
     let (base, bc) = run_with(&w.tables, text, &frefs, &Interrupt::None);
     let base = match &base {
-        Outcome::Ok(fr) if fr.result.is_ok() => fr.clone(),
+        Outcome::Ok(fr) if fr.result.is_ok() || bad_idx.is_some() => fr.clone(),
         _ => return (vec![], 1, 0, 0),
     };
     let full = nonblank(&base.printed);
@@ -207,7 +247,7 @@ fn check_group(w: &World, si: usize, seq: &[u8], parts: &[usize], only: Option<&
                         }
                     } else {
                         let consumed = fr.total_lines as usize;
-                        let prefix_files = sut::files_from(&lines[..consumed.min(lines.len())], &[consumed.min(lines.len())]);
+                        let prefix_files = files_from_bytes(&blines[..consumed.min(lines.len())], &[consumed.min(lines.len())]);
                         let prefs: Vec<&[u8]> = prefix_files.iter().map(|f| f.as_slice()).collect();
                         let expect = if let Interrupt::BeforeJoinLoad(_) = p {
                             None // joined table incomplete and no line consumed: nothing may be printed
@@ -228,7 +268,7 @@ fn check_group(w: &World, si: usize, seq: &[u8], parts: &[usize], only: Option<&
                     }
                     if let Interrupt::BeforeBatchLoad(k) = p {
                         // everything produced by the first k lines must have been printed
-                        let pf = sut::files_from(&lines[..*k], &[*k]);
+                        let pf = files_from_bytes(&blines[..*k], &[*k]);
                         let prefs: Vec<&[u8]> = pf.iter().map(|f| f.as_slice()).collect();
                         if let Outcome::Ok(e) = run_with(&w.tables, text, &prefs, &Interrupt::None).0 {
                             let want = nonblank(&e.printed);
@@ -261,7 +301,7 @@ pub fn run(ctx: &Ctx) -> i32 {
     let col = Collector::new();
     let w = world();
     let maxlen = ctx.tier.pick(3, 4) as u32;
-    let k = jlines().len() as u64;
+    let k = alphabet().len() as u64;
     let nseq = seq_count(k, maxlen);
     let nst = w.stmts.len() as u64;
     let (done, complete) = par_for_budget(ctx, nseq * nst, 8, |idx| {
